@@ -14,7 +14,7 @@ import (
 func TestProp(t *testing.T) {
 	env := vh.GetEnv()
 	rep := vh.NewReport("C18", "exploration")
-	rep.Rule("one dedicated workload: per proxy stack (all 8 combinations of cookie secure x cookie domain x HttpOnly, request signer on/off; six upstreams: timeout-handler chain, flush chain, explicit header_overrides on either chain incl. an HSTS override, a 300ms-timeout upstream for slow backends, a rewrite route whose hosts carry ports) and per direct single-upstream assembly (no timeout/flush chain, arbitrary Host, skip_auth_preflight) cases draw a scenario (24 kinds reaching every response-producing branch: proxied content authenticated/skip-auth/after refresh/after validation, sign-in redirect, XHR 401, forbidden, revoked, internal error, five callback outcomes, sign-out, auth-only, favicon, robots, certs, path cleaning, ping, unknown host) x an adversarial upstream behaviour (status x header attack mode none/weak/dup/lower/upper/empty/trailer/mixed x which of the 4 protected headers x interim 1xx x Set-Cookie under the proxy's cookie names x huge headers x reset/partial/slow) x X-Forwarded-Proto variant x method x XHR; authenticator: endpoint x gate outcome x method. distinct = that tuple plus the observed response class, counted only for responses actually received for a configured upstream / a named authenticator endpoint")
+	rep.Rule("one dedicated workload: per proxy stack (all 8 combinations of cookie secure x cookie domain x HttpOnly, request signer on/off; six upstreams: timeout-handler chain, flush chain, explicit header_overrides on either chain incl. an HSTS override, a 300ms-timeout upstream for slow backends, a rewrite route whose hosts carry ports) and per direct single-upstream assembly (no timeout/flush chain, arbitrary Host, skip_auth_preflight) cases draw a scenario (24 kinds reaching every response-producing branch: proxied content authenticated/skip-auth/after refresh/after validation, sign-in redirect, XHR 401, forbidden, revoked, internal error, five callback outcomes, sign-out, auth-only, favicon, robots, certs, path cleaning, ping, unknown host) x an adversarial upstream behaviour (status x header attack mode none/weak/dup/lower/upper/empty/trailer/mixed x which of the 4 protected headers x interim 1xx x Set-Cookie under the proxy's cookie names x huge headers x reset/partial/slow) x X-Forwarded-Proto variant x method x XHR; authenticator: endpoint x gate outcome x method. distinct = that tuple plus the observed response class, counted only for responses actually received for a configured upstream / a named authenticator endpoint. Shape streams (same stacks, upstreams with and without preserve_host): every attack on the protected headers x the rest of the upstream's answer - 1 to 4 features out of: a URL-bearing header (Location, Content-Location, Refresh, Link, Access-Control-Allow-Origin) holding a well-formed / backend-host / public-host / not-a-URI (bad escape, bad port, space, control bytes, open IPv6 literal, bad scheme) / odd value; Content-Type, Content-Encoding, Content-Length (exact, long, short, zero, invalid, duplicated), Transfer-Encoding (explicit, extensions, unannounced trailers, gzip+chunked, with Content-Length), Connection / Upgrade (incl. a real 101 switch), Set-Cookie with odd attributes, header volume (300 lines, 64 KB values, look-alike names), empty / big body, 22 other response headers, raw wire form (HTTP/1.0, LF-only, no reason phrase, folded lines, close after the head; protected lines first / middle / last) x 52 statuses x methods; a failing shaped case is re-run with one feature at a time to name the feature in the signature (shape=...)")
 	rep.Assume("the proxy's own header values are learned from its /robots.txt answer for an upstream without overrides; the authenticator's from an error answer of /sign_in")
 	rep.Assume("a response that never arrived (aborted connection) is not judged")
 
@@ -80,7 +80,7 @@ func runProxyWorkload(rep *vh.Report, env vh.Env) {
 		onlyS, skipS := env.Only(rs.stream)
 		nStacks := env.Pick(8, 40)
 		per := env.Pick(280, 1150)
-		perS := env.Pick(400, 900)
+		perS := env.Pick(320, 500)
 		nSlow := env.Pick(5, 10)
 		for si := 0; si < nStacks; si++ {
 			lo, loS := si*per, si*perS
@@ -111,7 +111,7 @@ func runProxyWorkload(rep *vh.Report, env vh.Env) {
 		onlyS, skipS := env.Only(rs.stream)
 		nStacks := env.Pick(4, 8)
 		per := env.Pick(130, 700)
-		perS := env.Pick(300, 1300)
+		perS := env.Pick(240, 700)
 		for di := 0; di < nStacks; di++ {
 			lo, loS := di*per, di*perS
 			runMain := !skip && inRange(only, lo, per)
